@@ -4,5 +4,5 @@ CONSTANTS
   MaxLen = 6
   DelimSets <- Delims3
   Obs <- ObsEmit
-INVARIANTS PosInBounds ScanIsSplit SplitJoinIdentity TokAgreesWithSplitModuloTrim DelimRunsSeparate QuotesGroupAndAreRemoved StatedExamples WordsConsistent
+INVARIANTS PosInBounds ScanIsSplit SplitJoinIdentity TokAgreesWithSplitModuloTrim DelimRunsSeparate QuotesGroupAndAreRemoved StatedExamples WordsConsistent RepeatLaw WordsRepeatLaw
 CHECK_DEADLOCK FALSE
